@@ -55,9 +55,11 @@ type world struct {
 }
 
 func newWorld() *world {
-	e := env.NewE1(env.E1Options{Seed: drv.Seed(), Chains: []string{chain}, Powers: []int64{5, 3, 2, 1}})
-	e.AddLateValidator(e.Ctx, 2) // bonded, not in the snapshot
-	e.Consensus.LateInject(e.Evm)   // as app.go does
+	// shares 5000000 : 3000001 : 1000002 : 1000000 (total 10000003): the last validator holds exactly
+	// floor(total/10) shares and the total is not a multiple of 3 or 10 (boundary cases of the 2/3 and 10% rules)
+	e := env.NewE1(env.E1Options{Seed: drv.Seed(), Chains: []string{chain}, Powers: []int64{5, 3, 1, 1}, ExtraStake: []int64{0, 1, 2, 0}})
+	e.AddLateValidator(e.Ctx, 2)  // bonded, not in the snapshot
+	e.Consensus.LateInject(e.Evm) // as app.go does
 	if err := e.Treasury.SetCommunityFundFee(e.Ctx, "0.01"); err != nil {
 		panic(err)
 	}
@@ -200,7 +202,9 @@ func (r *run) observe() map[string]any {
 				"pad": m.GetPublicAccessData() != nil, "err": m.GetErrorData() != nil, "added": int(m.GetAddedAtBlockHeight() - r.w.base), "nver": len(r.oldBts[id])})
 		}
 	}
-	sort.Slice(msgs, func(i, j int) bool { return msgs[i].(map[string]any)["id"].(int) < msgs[j].(map[string]any)["id"].(int) })
+	sort.Slice(msgs, func(i, j int) bool {
+		return msgs[i].(map[string]any)["id"].(int) < msgs[j].(map[string]any)["id"].(int)
+	})
 	o["msgs"] = msgs
 	ci, err := e.Evm.GetChainInfo(r.ctx, chain)
 	if err != nil {
@@ -424,7 +428,7 @@ func TestDriveCQueue(t *testing.T) {
 	for _, v := range w.e.Vals {
 		sh := 0
 		if sv, ok := snap.GetValidator(v.Val); ok {
-			sh = int(sv.ShareCount.QuoRaw(1_000_000).Int64())
+			sh = int(sv.ShareCount.Int64())
 		}
 		shares = append(shares, sh)
 	}
